@@ -37,7 +37,32 @@ PROVIDER = 'forml.provider'
 def merge_cases(ctx) -> None:
     prog = ctx.prog
     upd = prog.func(f'{CONF}:Config.update')
-    fn = upd.nested('merge')
+    # the merge function is whatever update() folds its layers with: the nested helper, or one moved to module level
+    sup = next((c for c in core.calls_in(upd.node) if core.src(c.func) == 'super().update' and len(c.args) == 1), None)
+    outer = sup.args[0] if sup is not None else None
+    layered = upd.node
+    if not (isinstance(outer, ast.Call) and isinstance(outer.func, ast.Name)) and sup is not None:
+        # folded step by step through a local: substitute the straight-line assignments of update() in order
+        env: dict = {}
+
+        class Sub(ast.NodeTransformer):
+            def visit_Name(self, n):  # noqa: N802
+                return env[n.id] if isinstance(n.ctx, ast.Load) and n.id in env else n
+
+        for st in upd.body:
+            if isinstance(st, ast.Assign) and len(st.targets) == 1 and isinstance(st.targets[0], ast.Name):
+                env[st.targets[0].id] = Sub().visit(ast.parse(ast.unparse(st.value), mode='eval').body)
+            elif any(c is sup for c in ast.walk(st)):
+                outer = Sub().visit(ast.parse(ast.unparse(sup.args[0]), mode='eval').body)
+                layered = ast.parse(f'super().update({ast.unparse(outer)})')
+                break
+    mname = outer.func.id if isinstance(outer, ast.Call) and isinstance(outer.func, ast.Name) else 'merge'
+    if f'{upd.ref}.{mname}' in [f.ref for f in prog.functions([CONF])] or prog.has_func(f'{upd.ref}.{mname}'):
+        fn = upd.nested(mname)
+    elif prog.has_func(f'{CONF}:{mname}'):
+        fn = prog.func(f'{CONF}:{mname}')
+    else:
+        fn = upd.nested('merge')
     loops = [s for s in fn.body if isinstance(s, ast.For)]
     if len(loops) != 1:
         raise core.AnalysisError('merge: single loop over keys not found')
@@ -58,6 +83,12 @@ def merge_cases(ctx) -> None:
                 if isinstance(test.op, ast.And):
                     return False if any(v is False for v in vals) else (True if all(v is True for v in vals) else None)
                 return True if any(v is True for v in vals) else (False if all(v is False for v in vals) else None)
+            if isinstance(test, ast.UnaryOp) and isinstance(test.op, ast.Not):
+                v = decide(test.operand)
+                return None if v is None else not v
+            if isinstance(test, ast.Compare) and len(test.ops) == 1 and isinstance(test.ops[0], ast.NotIn):
+                v = decide(ast.Compare(left=test.left, ops=[ast.In()], comparators=test.comparators))
+                return None if v is None else not v
             t = core.src(test)
             if t == f'{kvar} in common':
                 return inl and inr
@@ -82,12 +113,14 @@ def merge_cases(ctx) -> None:
             stored = stores[-1].value
             vals = [s for s in stmts if isinstance(stored, ast.Name) and isinstance(s, ast.Assign) and core.src(s.targets[0]) == stored.id]
             expr = vals[-1].value if vals else stored
+            while isinstance(expr, ast.IfExp) and decide(expr.test) is not None:
+                expr = expr.body if decide(expr.test) else expr.orelse  # a conditional value: the arm of this case
             t = core.src(expr)
             if t == f'right[{kvar}]':
                 outcomes.add('RIGHT')
             elif t == f'left[{kvar}]':
                 outcomes.add('LEFT')
-            elif isinstance(expr, ast.Call) and core.src(expr.func) == 'merge':
+            elif isinstance(expr, ast.Call) and core.src(expr.func) == mname:
                 outcomes.add('RECURSE' if [core.src(a) for a in expr.args] == [f'left[{kvar}]', f'right[{kvar}]'] else f'RECURSE-CROSSED({t})')
             elif isinstance(expr, (ast.Tuple, ast.List)) and len(expr.elts) == 2 and all(isinstance(e, ast.Starred) for e in expr.elts):
                 first, second = core.src(expr.elts[0].value), core.src(expr.elts[1].value)
@@ -122,8 +155,8 @@ def merge_cases(ctx) -> None:
                     okc = all(produced in a or 'Sequence' in a for a in accepted)
                     ctx.check(okc, 'C20.merge', fn, f'the list branch produces a {produced} and its own type test accepts {accepted}: merging stays associative over three and more layers', st, key='merge:list-closure')
     # update / read / constructor order
-    text = core.src(upd.node)
-    ctx.check('super().update(merge(merge(self, other or {}), kwargs))' in text, 'C20.layering', upd, 'update(): current config, then `other`, then keyword arguments (later wins)', upd.node, key='update:order')
+    text = core.src(layered)
+    ctx.check(f'super().update({mname}({mname}(self, other or {{}}), kwargs))' in text, 'C20.layering', upd, 'update(): current config, then `other`, then keyword arguments (later wins)', upd.node, key='update:order')
     rd = prog.func(f'{CONF}:Config.read')
     ctx.check('self.update(tomli.load(cfg))' in core.src(rd.node), 'C20.layering', rd, 'read() merges the parsed file through update()', rd.node, key='read:update')
     init = prog.func(f'{CONF}:Config.__init__')
@@ -281,16 +314,19 @@ def sink_modes(ctx) -> None:
 
         return R().visit(ast.parse(ast.unparse(e), mode='eval').body)
 
-    ret = next((r for r in core.walk_local(fn.node) if isinstance(r, ast.Return)), None)
-    modes = []
-    if ret is not None and isinstance(ret.value, ast.Call) and ret.value.args and isinstance(ret.value.args[0], (ast.List, ast.Tuple)):
-        for e in ret.value.args[0].elts:
-            if isinstance(e, ast.Call) and core.src(e.func) == 'Sink.resolve' and len(e.args) == 1:
-                modes.append(ast.unparse(resolve(e.args[0])))
     index = '_conf.CONFIG[cls.INDEX]'
     default = f'{index}.get(_conf.OPT_DEFAULT)'
     want = [f'{index}.get(_conf.OPT_APPLY, {default})', f'{index}.get(_conf.OPT_EVAL, {default})']
-    ctx.check(modes == want, 'C20.sections', fn, f'(apply, eval) sinks = own option of the [SINK] index, else its `default` option: {modes}', ret or fn.node, key='sink:mode-fallback')
+    seen = []
+    for ret in [r for r in core.walk_local(fn.node) if isinstance(r, ast.Return)]:
+        modes = []
+        if isinstance(ret.value, ast.Call) and ret.value.args and isinstance(ret.value.args[0], (ast.List, ast.Tuple)):
+            for e in ret.value.args[0].elts:
+                if isinstance(e, ast.Call) and core.src(e.func) == 'Sink.resolve' and len(e.args) == 1:
+                    modes.append(ast.unparse(resolve(e.args[0])))
+        seen.append(modes)
+    ok = bool(seen) and all(m == want or m == ['reference', 'reference'] for m in seen) and want in seen
+    ctx.check(ok, 'C20.sections', fn, f'(apply, eval) sinks = own option of the [SINK] index, else its `default` option - or the explicit reference for both: {seen}', fn.node, key='sink:mode-fallback')
 
 
 def qualifier_path(ctx) -> None:
